@@ -26,7 +26,9 @@ if fs:
 PY
 )
   exp=$(python3 -c "import json;print(json.load(open('seeded/$id/meta.json')).get('expect','detect'))" 2>/dev/null)
-  verdict=OK; if [ "$exp" = silent ] && [ $rc -ne 0 ]; then verdict=UNEXPECTED; fi; if [ "$exp" != silent ] && [ $rc -ne 1 ]; then verdict=UNEXPECTED; fi
+  verdict=OK; if [ "$exp" = silent ] && [ $rc -ne 0 ]; then verdict=UNEXPECTED; fi; if [ "$exp" = detect ] && [ $rc -ne 1 ]; then verdict=UNEXPECTED; fi
+  # expect=miss: a recorded gap (see meta.json): reported, never counted as a failure of the regression
+  if [ "$exp" = miss ]; then verdict="KNOWN-GAP"; [ $rc -eq 2 ] && verdict=UNEXPECTED; fi
   echo "$verdict $id expect=$exp rc=$rc $((t1-t0))s $s"
   rm -rf $OUT
 done
